@@ -26,8 +26,12 @@ Theorem C20_chain : C20_chain_statement.
 Proof. exact C20Facts.C20_chain. Qed.
 Print Assumptions C20_chain.
 
-(* sub-tolerance drift: 6/64 steps are never delivered by on_change, a 7/64 step is *)
+(* sub-tolerance drift: 6/64 steps are never delivered by on_change, a 7/64 step is; and a step of exactly one tolerance
+   (0 -> the double 0.1) is not *)
 Example C20_nonvacuous :
-  fst (frun KOnChange (finit KOnChange 0) [(0, FNum 640); (1, FNum 646); (2, FNum 647); (3, FNum 641)]) =
-  [Some (FNum 640); None; Some (FNum 647); None].
-Proof. vm_compute. reflexivity. Qed.
+  let u := 18014398509481984 in     (* 1/64 on the 2^-60 grid *)
+  fst (frun KOnChange (finit KOnChange 0) [(0, FNum (640 * u)); (1, FNum (646 * u)); (2, FNum (647 * u)); (3, FNum (641 * u))]) =
+  [Some (FNum (640 * u)); None; Some (FNum (647 * u)); None] /\
+  fst (frun KOnChange (finit KOnChange 0) [(0, FNum 0); (1, FNum 115292150460684704); (2, FNum 115292150460684705)]) =
+  [Some (FNum 0); None; Some (FNum 115292150460684705)].
+Proof. vm_compute. split; reflexivity. Qed.
